@@ -369,6 +369,8 @@ func updateConfigFile() {
 		value := slip.UserPkg.JustGet(key)
 		p := *slip.DefaultPrinter()
 		p.Readably = true
+		p.Base = 10 // the reader assumes base 10 no matter what *print-base* is
+		p.Radix = false
 		b = fmt.Appendf(b, "(setq %s ", key)
 		if list, ok := value.(slip.List); ok && 0 < len(list) {
 			b = append(b, '\'')
